@@ -56,6 +56,9 @@ type inst struct {
 	skipRecv   map[*ast.UnaryExpr]bool
 	skipSend   map[*ast.SendStmt]bool
 	writeRoots map[ast.Node]bool
+	writeTops  map[ast.Node]bool     // assignment targets as written (for element-level recording)
+	chainTgt   map[ast.Node]chainRec // presence = record an element access at this node
+	skipChain  map[ast.Node]bool
 	noShared   map[ast.Node]bool
 	names      map[string]int
 	sizes      types.Sizes
@@ -219,6 +222,9 @@ func (in *inst) doFile(f *ast.File, fn string) error {
 	in.skipRecv = map[*ast.UnaryExpr]bool{}
 	in.skipSend = map[*ast.SendStmt]bool{}
 	in.writeRoots = map[ast.Node]bool{}
+	in.writeTops = map[ast.Node]bool{}
+	in.chainTgt = map[ast.Node]chainRec{}
+	in.skipChain = map[ast.Node]bool{}
 	in.noShared = map[ast.Node]bool{}
 	in.recvTV = map[*ast.SelectorExpr]types.TypeAndValue{}
 	in.recvShared = map[*ast.SelectorExpr]bool{}
@@ -615,17 +621,21 @@ func (in *inst) markWrites(body *ast.BlockStmt) {
 			if x.Tok != token.DEFINE {
 				for _, l := range x.Lhs {
 					in.markRoot(l)
+					in.writeTops[unparen(l)] = true
 				}
 			}
 		case *ast.IncDecStmt:
 			in.markRoot(x.X)
+			in.writeTops[unparen(x.X)] = true
 		case *ast.RangeStmt:
 			if x.Tok == token.ASSIGN {
 				if x.Key != nil {
 					in.markRoot(x.Key)
+					in.skipChain[unparen(x.Key)] = true
 				}
 				if x.Value != nil {
 					in.markRoot(x.Value)
+					in.skipChain[unparen(x.Value)] = true
 				}
 			}
 		case *ast.CallExpr:
@@ -634,12 +644,136 @@ func (in *inst) markWrites(body *ast.BlockStmt) {
 					switch id.Name {
 					case "copy", "delete", "clear":
 						in.markRoot(x.Args[0])
+						if t := in.info.TypeOf(x.Args[0]); t != nil && id.Name != "copy" {
+							if _, isMap := t.Underlying().(*types.Map); isMap {
+								in.writeTops[unparen(x.Args[0])] = true
+							}
+						}
 					}
 				}
 			}
 		}
 		return true
 	})
+}
+
+type chainRec struct {
+	write bool
+	site  ast.Expr
+}
+
+// chainTarget analyses top, a maximal selector/index/dereference chain (v.f, v[i].g, (*v).h,
+// v.m[k] ...) rooted at a shared variable, and returns the sub-expression whose exact address is
+// the memory location the chain accesses: the whole chain when every hop is addressable, or the
+// map operand of the innermost map index (a map element has no address; an access to it is an
+// access to the map). nil when the chain is not rooted at a shared variable, when the location
+// is the root variable itself (recorded by the root's own wrapper) or an array/struct (which
+// part of it is used is decided further up or not at all).
+func (in *inst) chainTarget(top ast.Expr) (target ast.Expr, write bool) {
+	var hops []ast.Expr
+	var root ast.Expr
+	e := top
+walk:
+	for {
+		switch x := e.(type) {
+		case *ast.ParenExpr:
+			e = x.X
+		case *ast.SelectorExpr:
+			if id, ok := x.X.(*ast.Ident); ok {
+				if _, isPkg := in.info.Uses[id].(*types.PkgName); isPkg {
+					if in.sharedVar(x.Sel) == nil || in.noShared[x] || in.noShared[x.Sel] {
+						return nil, false
+					}
+					root = x
+					break walk
+				}
+			}
+			sel, ok := in.info.Selections[x]
+			if !ok || sel.Kind() != types.FieldVal {
+				return nil, false
+			}
+			hops = append(hops, x)
+			e = x.X
+		case *ast.IndexExpr:
+			t := in.info.TypeOf(x.X)
+			if t == nil {
+				return nil, false
+			}
+			switch u := t.Underlying().(type) {
+			case *types.Slice, *types.Array, *types.Map:
+			case *types.Pointer:
+				if _, ok := u.Elem().Underlying().(*types.Array); !ok {
+					return nil, false
+				}
+			default:
+				return nil, false
+			}
+			hops = append(hops, x)
+			e = x.X
+		case *ast.StarExpr:
+			hops = append(hops, x)
+			e = x.X
+		case *ast.Ident:
+			if in.noShared[x] {
+				return nil, false
+			}
+			if _, isDef := in.info.Defs[x]; isDef {
+				return nil, false
+			}
+			if in.sharedVar(x) == nil && in.capturedVar(x) == nil {
+				return nil, false
+			}
+			root = x
+			break walk
+		default:
+			return nil, false
+		}
+	}
+	if len(hops) == 0 {
+		return nil, false
+	}
+	// innermost map index: hops run from the top towards the root
+	for i := len(hops) - 1; i >= 0; i-- {
+		ix, ok := hops[i].(*ast.IndexExpr)
+		if !ok {
+			continue
+		}
+		if _, isMap := in.info.TypeOf(ix.X).Underlying().(*types.Map); !isMap {
+			continue
+		}
+		if unparen(ix.X) == root {
+			return nil, false
+		}
+		return ix.X, ast.Expr(ix) == unparen(top) && in.writeTops[ix]
+	}
+	if t := in.info.TypeOf(top); t != nil {
+		switch t.Underlying().(type) {
+		case *types.Array, *types.Struct:
+			return nil, false
+		}
+	} else {
+		return nil, false
+	}
+	return top, in.writeTops[unparen(top)]
+}
+
+// continuesChain reports whether parent extends the chain that n is the upper end of.
+func (in *inst) continuesChain(parent ast.Node, n ast.Expr) bool {
+	switch p := parent.(type) {
+	case *ast.ParenExpr:
+		return true
+	case *ast.StarExpr:
+		return true
+	case *ast.IndexExpr:
+		return p.X == n
+	case *ast.SelectorExpr:
+		if p.X != n {
+			return false
+		}
+		sel, ok := in.info.Selections[p]
+		return ok && sel.Kind() == types.FieldVal
+	}
+	return false
 }
 
 func (in *inst) wrapShared(orig ast.Node, e ast.Expr, write bool) ast.Expr {
@@ -699,6 +833,14 @@ func (in *inst) rewriteBody(body *ast.BlockStmt) {
 		case *ast.SelectStmt:
 			for _, cl := range n.Body.List {
 				cc := cl.(*ast.CommClause)
+				if cc.Comm != nil {
+					ast.Inspect(cc.Comm, func(m ast.Node) bool {
+						if e, ok := m.(ast.Expr); ok {
+							in.skipChain[e] = true
+						}
+						return true
+					})
+				}
 				switch s := cc.Comm.(type) {
 				case *ast.SendStmt:
 					in.skipSend[s] = true
@@ -713,6 +855,22 @@ func (in *inst) rewriteBody(body *ast.BlockStmt) {
 						}
 					}
 				}
+			}
+		case *ast.SelectorExpr, *ast.IndexExpr, *ast.StarExpr:
+			ne := n.(ast.Expr)
+			if in.skipChain[ne] || in.continuesChain(c.Parent(), ne) {
+				break
+			}
+			if u, ok := c.Parent().(*ast.UnaryExpr); ok && u.Op == token.AND {
+				break
+			}
+			if tgt, w := in.chainTarget(ne); tgt != nil {
+				kind := "r"
+				if w {
+					kind = "w"
+				}
+				// the site is taken now: its text is the source text of the untouched chain
+				in.chainTgt[unparen(tgt)] = chainRec{write: w, site: in.site(kind, unparen(tgt))}
 			}
 		case *ast.IncDecStmt:
 			if c.Index() >= 0 {
@@ -743,6 +901,21 @@ func (in *inst) rewriteBody(body *ast.BlockStmt) {
 		return true
 	}
 	post := func(c *astutil.Cursor) bool {
+		if e, ok := c.Node().(ast.Expr); ok {
+			if rec, ok := in.chainTgt[e]; ok {
+				switch e.(type) {
+				case *ast.SelectorExpr, *ast.IndexExpr, *ast.StarExpr:
+					delete(in.chainTgt, e)
+					fn := "R"
+					if rec.write {
+						fn = "W"
+					}
+					in.rep.Counts["field"]++
+					c.Replace(&ast.ParenExpr{X: &ast.StarExpr{X: call(rt(fn), rec.site, &ast.UnaryExpr{Op: token.AND, X: e})}})
+					return true
+				}
+			}
+		}
 		switch n := c.Node().(type) {
 		case *ast.GoStmt:
 			c.Replace(in.goStmt(n))
